@@ -43,7 +43,10 @@ Step(q) ==
       indep == \A e \in Files \ {o.d} : q.post[e] = q.pre[e]
       retOK == (S!IsRetrieval(o) /\ q.out = "ok") => q.ret = S!SpecRetrieve(f, o)
       impl == S!ImplStep(f, q.reg, o)
-      implAgrees == /\ impl.out = q.out /\ impl.f = g /\ impl.reg = q.regpost
+      \* (the registries are compared only while they decide something: deletions by name remove
+      \* whichever registry entry has the name among its aliases)
+      implAgrees == /\ impl.out = q.out /\ impl.f = g
+                    /\ (S!Has("registry_autoinsert") => impl.reg = q.regpost)
                     /\ ((S!IsRetrieval(o) /\ q.out = "ok") => q.ret = S!ImplRetrieve(f, o))
       clause == IF ~outOK THEN "outcome"                  \* accepted / refused against the dictionary model
                 ELSE IF ~effOK THEN "effect"              \* exactly the dictionary update, or nothing when refused
